@@ -2,6 +2,21 @@
 //! Compiled only with `--cfg xray_verif`; nothing here is reachable otherwise.
 #![allow(unreachable_pub, dead_code)]
 
+// per-engine hook files (each engine's wrappers live in its own file)
+pub mod map;
+pub mod seq;
+pub mod gen;
+pub mod strs;
+pub mod lex;
+pub mod ord;
+pub mod ty;
+pub mod ovl;
+pub mod alloc;
+pub mod perm;
+pub mod fl;
+pub mod conv;
+pub mod core;
+
 use crate::builtin::optional::XOptional;
 use crate::builtin::sequence::XSequence;
 use crate::builtin::stack::XStack;
